@@ -24,27 +24,41 @@ package mvt
 // gd.count is the number of varints in the packed geometry field (at most the input length).
 
 //@ func (*geomDecoder).cmdAndCount(gd) (cmd, count, err)
-//@   requires gd.iter != nil && 0 <= gd.used && gd.used <= 4611686018427387904
+//@   ovf assume
+//@   requires gd.iter != nil && 0 <= gd.used
+//@   modifies *gd, *gd.iter
 //@   ensures gd.count == old(gd.count) && gd.iter == old(gd.iter) && gd.used >= old(gd.used)
 //@   ensures err == nil && cmd != 7 ==> gd.used + 2*count <= gd.count
 
+// gd.used counts the varints consumed; that this counter stays below 2^63 is ASSUMED (`ovf assume`,
+// listed): it would need more than 2^62 values in one geometry field
 //@ func (*geomDecoder).NextPoint(gd)
-//@   mode bv
-//@   requires gd.iter != nil
-//@   ensures gd.count == old(gd.count) && gd.iter == old(gd.iter)
+//@   ovf assume
+//@   requires gd.iter != nil && 0 <= gd.used
+//@   modifies *gd, *gd.iter
+//@   ensures gd.count == old(gd.count) && gd.iter == old(gd.iter) && gd.used == old(gd.used) + 2
 
 //@ func (*geomDecoder).done(gd)
 //@   requires gd.iter != nil
+//@   modifies *gd.iter
 //@   ensures gd.count == old(gd.count) && gd.iter == old(gd.iter) && gd.used == old(gd.used)
 
 // every make() in the geometry decoders is bounded by the number of varints actually present
 //@ func (*geomDecoder).decodePoint(gd)
-//@   requires gd.iter != nil && gd.used >= 0 && gd.used <= 1099511627776
+//@   ovf assume
+//@   requires gd.iter != nil && gd.used >= 0
+//@   modifies *gd, *gd.iter
+//@   ensures gd.count == old(gd.count) && gd.iter == old(gd.iter) && gd.used >= old(gd.used)
 //@   opt alloc=gd.count
+//@   loop 1: invariant gd.iter == old(gd.iter) && gd.count == old(gd.count) && gd.used >= old(gd.used)
 
 //@ func (*geomDecoder).decodeLine(gd)
-//@   requires gd.iter != nil && gd.used >= 0 && gd.used <= 1099511627776
+//@   ovf assume
+//@   requires gd.iter != nil && gd.used >= 0
+//@   modifies *gd, *gd.iter
+//@   ensures gd.count == old(gd.count) && gd.iter == old(gd.iter) && gd.used >= old(gd.used)
 //@   opt alloc=gd.count+1
+//@   loop 1: invariant gd.iter == old(gd.iter) && gd.count == old(gd.count) && gd.used >= old(gd.used)
 
 // ---------------------------------------------------------------- features added per geometry (C03)
 // ASSUMED (listed): encoding the properties writes only the key/value encoder's own tables. The body
